@@ -63,6 +63,12 @@ def check_c03(case, stats=None, conservation=False):
     batch_hist = stats.setdefault("batch_sizes", {}) if stats is not None else {}
     unstash = 0
     disp_looping = False
+    # an accepted quit request ends the run: the blocking loop starts no further poll batch (so no level-triggered descriptor
+    # is reported twice after it), the dispatch call following the one that accepted it stops the loop
+    quit_fd_seen = {}   # (module, idx, ud) -> reports since the quit was accepted (loop mode)
+    quit_pending_dispatch = None     # index of the accepted quit awaiting the next top-level dispatch call
+    quit_flagged = [False]
+    loop_mode = case.mode == "loop"
 
     def end_of_run(idx, ret, kind):
         """loop run ended at record idx returning ret"""
@@ -83,6 +89,7 @@ def check_c03(case, stats=None, conservation=False):
             elif ret != 0:
                 bad("wrong-return-code", "loop run ended because no module is running but returned %s" % ret, recs[idx])
         quits = []
+        quit_fd_seen.clear()
 
     for r in recs:
         if r.k == "S":
@@ -133,6 +140,8 @@ def check_c03(case, stats=None, conservation=False):
                 writes.setdefault(c.args[0], []).append(c.i)
             if c.op == "ctx_quit" and ok and executed(r):
                 quits.append((r.i, c.args[0]))
+                if len(quits) == 1:
+                    quit_fd_seen.clear()
             if c.op == "ctx_loop" and executed(r):
                 if r.ret < 0 and not any(x.k == "S" and x.ctx.get("loop") == "1" for x in recs[c.i:r.i]) and not any(x.k in ("B",) for x in recs[c.i:r.i]):
                     quits = []          # m_ctx_loop refused (no context / already looping): not a loop run
@@ -142,6 +151,11 @@ def check_c03(case, stats=None, conservation=False):
                 lp = r.fields.get("looping")
                 if c.depth == 0 and lp == "1" and r.ret is not None and r.ret >= 0 and looping:
                     batch_hist[min(r.ret, 65)] = batch_hist.get(min(r.ret, 65), 0) + 1
+                if c.depth == 0 and executed(r):
+                    nonlocal_q = [q for q in quits if q[0] < c.i]
+                    if nonlocal_q and lp == "1" and disp_looping and not quit_flagged[0]:
+                        quit_flagged[0] = True
+                        bad("quit-ignored", "m_ctx_quit(%d) was accepted at trace line %d, but the m_ctx_dispatch() call made after that still found the loop running and left it running (returned %s)" % (nonlocal_q[0][1], nonlocal_q[0][0], r.ret), r)
                 if lp == "0" and disp_looping:
                     end_of_run(r.i, r.ret, "dispatch")
                 disp_looping = lp == "1"
@@ -156,6 +170,12 @@ def check_c03(case, stats=None, conservation=False):
                 stats["events_" + kind] = stats.get("events_" + kind, 0) + 1
             if kind in ("thresh", "unknown"):
                 continue
+            if kind == "fd" and quits and loop_mode and not quit_flagged[0]:
+                kq = (m, key, ud)
+                quit_fd_seen[kq] = quit_fd_seen.get(kq, 0) + 1
+                if quit_fd_seen[kq] >= 2:
+                    quit_flagged[0] = True
+                    bad("quit-ignored", "m_ctx_quit(%d) was accepted at trace line %d, but the loop went on polling: descriptor source %s of module %d was reported %d times after it (one poll batch reports a descriptor once)" % (quits[0][1], quits[0][0], key, m, quit_fd_seen[kq]), r)
             if kind == "fd" and key < 0:
                 # a source registered with M_SRC_DUP reports the library's duplicate: identify it by its user-data token
                 cand = [k for k, e in reg.items() if k[0] == m and k[1] == "fd" and (e["flags"] & SRC_DUP) and e["ud"] == ud]
